@@ -118,9 +118,19 @@ def enum_body(index, blocks):
     return b, nv[0]
 
 
-def wrap_body(bodies, nvars):
+def wrap_body(bodies, nvars, rng=None):
     vars_ = [V('V%d' % i) for i in range(1, nvars + 1)]
     clauses = gen.leaf_facts()
+    if rng is not None and rng.random() < 0.5:
+        # two extra head arguments select the clause: heads with a repeated variable, constants, `_`; the caller
+        # supplies pairs that unify with some heads and not with others (a cut only commits a clause that was entered)
+        K1, K2 = V('K1'), V('K2')
+        pats = [(V('S'), V('S')), (A('m0'), V('_')), (V('_'), A('m1')), (V('_'), V('_')), (K1, K2), (A('m1'), A('m0'))]
+        for b in bodies:
+            p = rng.choice(pats)
+            clauses.append((C('t', p[0], p[1], *vars_), b))
+        clauses.append((C('top', K1, K2, *vars_), gen.conj([('call', C('m', K1)), ('call', C('m', K2)), ('call', C('t', K1, K2, *vars_))])))
+        return clauses, 'top', nvars + 2
     thead = C('t', *vars_) if vars_ else A('t')
     for b in bodies:
         clauses.append((thead, b))
